@@ -112,7 +112,9 @@ def choi_from_unitary(unitary: np.ndarray) -> np.ndarray:
 
     """
     unitary = np.array(unitary)
-    return np.outer(unitary.flatten(), np.conj(unitary.flatten()))
+    # Vectorise by stacking columns so that this matches the convention which
+    # is used within the process tomography routines
+    return np.outer(unitary.T.flatten(), np.conj(unitary.T.flatten()))
 
 
 def _vec(mat: np.ndarray) -> np.ndarray:
